@@ -67,8 +67,10 @@ Definition u3 : bytes := [48;49;75;53;90;56;88;57;71;49;48;48;48;48;48;48;48;48;
 Definition crows : list (bytes * N) := [(u1, 1); (u2, 2); (u3, 3)].
 Definition ty_doc : bytes := [100; 111; 99].
 
+(* [changes_sorted_by_ulid]: the log is in strictly increasing ULID order -- the invariant that
+   memory.Write maintains by assigning changelog ULIDs under the tuples lock *)
 Theorem paging_exact_changes_memory : forall (A : Type) (rows : list (bytes * A)) (ps : Z) (ty : bytes),
-  strictly_sorted (map (fun r => norm_key ulid_parse (fst r)) rows) = true ->
+  changes_sorted_by_ulid rows = true ->
   ulid_keys_ok rows = true -> keys_nonempty rows = true -> keys_no_pipe rows = true ->
   exists pages, follow_changes (S (length rows)) (changes_mem rows ps ty) [] = (pages, EndMarker)
                 /\ pages_items pages = map snd rows
@@ -77,11 +79,27 @@ Proof. exact @paging_exact_changes_mem. Qed.
 Print Assumptions paging_exact_changes_memory.
 
 Example paging_exact_changes_memory_ex :
-  strictly_sorted (map (fun r => norm_key ulid_parse (fst r)) crows) = true
+  changes_sorted_by_ulid crows = true
   /\ ulid_keys_ok crows = true /\ keys_nonempty crows = true /\ keys_no_pipe crows = true
   /\ follow_changes 4 (changes_mem crows 2 ty_doc) []
      = ([([1; 2], u2 ++ 124 :: ty_doc); ([3], u3 ++ 124 :: ty_doc); ([], u3 ++ 124 :: ty_doc)], EndMarker).
 Proof. vm_compute. repeat split; reflexivity. Qed.
+
+(* ... and the hypothesis cannot be dropped: a log out of ULID order (commit order B, A while A's ulid
+   is older -- two writers whose ULIDs were not assigned under the lock) loses A under page size 1
+   and repeats B under page size 2 *)
+Theorem paging_changes_unsorted_refuted :
+  (exists rows : list (bytes * N),
+      changes_sorted_by_ulid rows = false /\ ulid_keys_ok rows = true
+      /\ map snd rows = [2; 1]
+      /\ follow_changes 3 (changes_mem rows 1 []) []
+         = ([([2], ulid_b ++ [124]); ([], ulid_b ++ [124])], EndMarker))
+  /\ (exists rows : list (bytes * N),
+      changes_sorted_by_ulid rows = false
+      /\ map snd rows = [2; 1; 3]
+      /\ pages_items (fst (follow_changes 4 (changes_mem rows 2 []) [])) = [2; 1; 2; 3]).
+Proof. exact paging_changes_unsorted_refuted_witness. Qed.
+Print Assumptions paging_changes_unsorted_refuted.
 
 Theorem paging_exact_changes_sqlite : forall (A : Type) (rows : list (bytes * A)) (ps : Z) (ty : bytes),
   strictly_sorted (map fst rows) = true -> keys_nonempty rows = true -> keys_no_pipe rows = true ->
